@@ -122,6 +122,7 @@ impl<K: KeyT, V: ValT> World<K, V> {
                         ES::R(r)
                     }
                     EStep::Key => {
+                        sut(|| debug_to_sink(&e));
                         let kk = sut(|| e.key());
                         kk.check("Entry::key");
                         let want = match cur {
